@@ -2,6 +2,7 @@ package main
 
 import (
 	"fmt"
+	"strings"
 	"go/token"
 	"go/types"
 
@@ -302,4 +303,215 @@ func (fr *Frame) execNext(ins *ssa.Next, st *State) {
 		parts = append(parts, fr.vc.freshVal("next", tup.At(i).Type(), fr.curReach))
 	}
 	fr.tupleParts[ins] = parts
+}
+
+// ---- readers as ghost input streams ----
+// A reader handle r delivers the fixed byte sequence rd_data(r) of length rd_len(r) (then EOF or a
+// broken connection); $rdpos[r] is the cursor. No packet structure exists in the model, so anything
+// proved holds for every segmentation of the stream.
+
+func (vc *VC) rdposComp() string {
+	vc.comp("$rdpos", "(Array Int Int)")
+	if _, inSpec := vc.db.Sigs["rd_data"]; !vc.declared["rd_data"] && !inSpec {
+		vc.declared["rd_data"] = true
+		vc.decls = append(vc.decls, "(declare-fun rd_data (Int) (Array Int Int))", "(declare-fun rd_len (Int) Int)")
+	}
+	return "$rdpos"
+}
+
+func init() {
+	nativeCalls["io.ReadAtLeast"] = &nativeCall{exec: ioReadAtLeast, modifies: func(fr *Frame, cc *ssa.CallCommon) []string {
+		return []string{fr.vc.rdposComp(), fr.vc.arrComp(types.Typ[types.Uint8])}
+	}, doc: "io.ReadAtLeast(r, buf, min): with min == len(buf) a nil error means exactly len(buf) bytes of the stream"}
+	nativeCalls["io.ReadFull"] = nativeCalls["io.ReadAtLeast"]
+	for _, n := range []string{"Uint16", "Uint32", "Uint64"} {
+		n := n
+		nativeCalls["encoding/binary.(bigEndian)."+n] = &nativeCall{exec: func(fr *Frame, cc *ssa.CallCommon, st *State, pos token.Pos) []Term {
+			return beRead(fr, cc, st, pos, n)
+		}, modifies: func(*Frame, *ssa.CallCommon) []string { return nil }, doc: "big-endian decode"}
+		nativeCalls["encoding/binary.(bigEndian).Put"+n] = &nativeCall{exec: func(fr *Frame, cc *ssa.CallCommon, st *State, pos token.Pos) []Term {
+			return bePut(fr, cc, st, pos, n)
+		}, modifies: func(fr *Frame, cc *ssa.CallCommon) []string { return []string{fr.vc.arrComp(types.Typ[types.Uint8])} }, doc: "big-endian encode"}
+	}
+	nativeCalls["sync.(*Pool).Get"] = &nativeCall{exec: poolGet, modifies: func(fr *Frame, cc *ssa.CallCommon) []string {
+		return []string{"$alloc"}
+	}, doc: "sync.Pool.Get returns an object owned exclusively by the caller"}
+	nativeCalls["sync.(*Pool).Put"] = &nativeCall{exec: poolPut, modifies: func(*Frame, *ssa.CallCommon) []string { return nil }, doc: "sync.Pool.Put"}
+}
+
+func ioReadAtLeast(fr *Frame, cc *ssa.CallCommon, st *State, pos token.Pos) []Term {
+	vc := fr.vc
+	vc.callees["io.ReadAtLeast / io.ReadFull (trusted stream contract)"] = true
+	r := fr.val(cc.Args[0])
+	buf := fr.val(cc.Args[1])
+	blen := fmt.Sprintf("(sl_len %s)", buf.S)
+	min := blen
+	if len(cc.Args) > 2 {
+		min = fr.val(cc.Args[2]).S
+	}
+	vc.oblige("readatleast", fr.autoTags(), fr.curReach, fmt.Sprintf("(= %s %s)", min, blen), "io.ReadAtLeast is called with min == len(buf) (the read is independent of how the stream is split)", pos, nil)
+	rp := vc.rdposComp()
+	cur := fmt.Sprintf("(select %s %s)", vc.get(st, rp), r.S)
+	p0 := vc.fresh("rdpos")
+	vc.define(p0, "Int", cur)
+	avail := fmt.Sprintf("(- (rd_len %s) %s)", r.S, p0)
+	ok := vc.fresh("rdok")
+	vc.define(ok, "Bool", fmt.Sprintf("(>= %s %s)", avail, min))
+	n := vc.fresh("rdn")
+	vc.declare(n, "Int")
+	errv := vc.fresh("rderr")
+	vc.declare(errv, "Int")
+	vc.assumeIf(fr.curReach, fmt.Sprintf("(and (<= 0 %s) (<= %s (rd_len %s)) (ite %s (and (= %s 0) (<= %s %s) (<= %s %s) (<= %s %s)) (and (not (= %s 0)) (= %s (ite (< %s 0) 0 %s)) (< %s %s))))",
+		p0, p0, r.S, ok, errv, min, n, n, blen, n, avail, errv, n, avail, avail, n, min))
+	// the error is an I/O error, never one of the protocol-level client errors or an application error
+	vc.assumeIf(fr.curReach, fmt.Sprintf("(=> (not (= %s 0)) (is_io_error %s))", errv, errv))
+	if _, inSpec := vc.db.Sigs["is_io_error"]; !vc.declared["is_io_error"] && !inSpec {
+		vc.declared["is_io_error"] = true
+		vc.decls = append(vc.decls, "(declare-fun is_io_error (Int) Bool)")
+	}
+	comp := vc.arrComp(types.Typ[types.Uint8])
+	ref := fmt.Sprintf("(sl_ref %s)", buf.S)
+	off := fmt.Sprintf("(sl_off %s)", buf.S)
+	old := fmt.Sprintf("(select %s %s)", vc.get(st, comp), ref)
+	a := vc.fresh("rdbuf")
+	vc.declare(a, "(Array Int Int)")
+	vc.assume(fmt.Sprintf("(forall ((j Int)) (! (= (select %s j) (ite (and (<= %s j) (< j (+ %s %s))) (select (rd_data %s) (+ %s (- j %s))) (select %s j))) :pattern ((select %s j))))",
+		a, off, off, n, r.S, p0, off, old, a))
+	vc.set(st, comp, fmt.Sprintf("(store %s %s %s)", vc.get(st, comp), ref, a))
+	vc.set(st, rp, fmt.Sprintf("(store %s %s (+ %s %s))", vc.get(st, rp), r.S, p0, n))
+	vc.assumeIf(fr.curReach, fmt.Sprintf("(forall ((j Int)) (! (and (<= 0 (select (rd_data %s) j)) (< (select (rd_data %s) j) 256)) :pattern ((select (rd_data %s) j))))", r.S, r.S, r.S))
+	return []Term{{n, "Int", types.Typ[types.Int]}, {errv, "Int", types.Universe.Lookup("error").Type()}}
+}
+
+func beWidth(n string) int {
+	switch n {
+	case "Uint16":
+		return 2
+	case "Uint32":
+		return 4
+	}
+	return 8
+}
+
+func beRead(fr *Frame, cc *ssa.CallCommon, st *State, pos token.Pos, name string) []Term {
+	vc := fr.vc
+	b := fr.val(cc.Args[len(cc.Args)-1])
+	w := beWidth(name)
+	vc.oblige("bounds", fr.autoTags(), fr.curReach, fmt.Sprintf("(>= (sl_len %s) %d)", b.S, w), fmt.Sprintf("binary.BigEndian.%s needs %d bytes", name, w), pos, nil)
+	comp := vc.arrComp(types.Typ[types.Uint8])
+	arr := fmt.Sprintf("(select %s (sl_ref %s))", vc.get(st, comp), b.S)
+	var parts []string
+	for i := 0; i < w; i++ {
+		parts = append(parts, fmt.Sprintf("(* %s (select %s (+ (sl_off %s) %d)))", pow2(8*(w-1-i)), arr, b.S, i))
+	}
+	n := vc.fresh("be")
+	vc.define(n, "Int", "(+ "+strings.Join(parts, " ")+")")
+	sig := cc.Signature()
+	rt := sig.Results().At(0).Type()
+	vc.assumeIf(fr.curReach, vc.wf(rt, n))
+	return []Term{{n, "Int", rt}}
+}
+
+func bePut(fr *Frame, cc *ssa.CallCommon, st *State, pos token.Pos, name string) []Term {
+	vc := fr.vc
+	b := fr.val(cc.Args[len(cc.Args)-2])
+	v := fr.val(cc.Args[len(cc.Args)-1])
+	w := beWidth(name)
+	vc.oblige("bounds", fr.autoTags(), fr.curReach, fmt.Sprintf("(>= (sl_len %s) %d)", b.S, w), fmt.Sprintf("binary.BigEndian.Put%s needs %d bytes", name, w), pos, nil)
+	comp := vc.arrComp(types.Typ[types.Uint8])
+	ref := fmt.Sprintf("(sl_ref %s)", b.S)
+	arr := fmt.Sprintf("(select %s %s)", vc.get(st, comp), ref)
+	for i := 0; i < w; i++ {
+		byteV := fmt.Sprintf("(mod (div %s %s) 256)", v.S, pow2(8*(w-1-i)))
+		arr = fmt.Sprintf("(store %s (+ (sl_off %s) %d) %s)", arr, b.S, i, byteV)
+	}
+	vc.set(st, comp, fmt.Sprintf("(store %s %s %s)", vc.get(st, comp), ref, arr))
+	return nil
+}
+
+// poolGet: the object handed out is owned exclusively by the caller until it is Put back; modelled as a
+// fresh object with arbitrary contents. The pool kind is declared per package-level pool variable:
+//   global bufPool pool:[]byte:24     global reqHeadPool pool:*RequestHeader
+func poolGet(fr *Frame, cc *ssa.CallCommon, st *State, pos token.Pos) []Term {
+	vc := fr.vc
+	kind := fr.poolKind(cc.Args[0])
+	anyT := cc.Signature().Results().At(0).Type()
+	if kind == "" {
+		// unknown pool: use the contract file entry if present
+		if spec := vc.lookupSpec("sync.(*Pool).Get"); spec != nil {
+			return fr.applyContract(spec, cc, st, pos)
+		}
+		vc.unsupportedf("sync.Pool.Get on a pool without declared kind at %s", vc.posOf(pos))
+		return []Term{vc.freshVal("poolobj", anyT, fr.curReach)}
+	}
+	vc.callees["sync.Pool (objects are exclusively owned between Get and Put; trusted)"] = true
+	parts := strings.Split(kind, ":")
+	var payloadT types.Type
+	var payload string
+	pkg := ""
+	if fr.fn.Pkg != nil {
+		pkg = shortPkg(fr.fn.Pkg.Pkg.Path())
+	}
+	if g, ok := rootGlobalOfLoad(cc.Args[0]); ok {
+		pkg = shortPkg(g.Pkg.Pkg.Path())
+	}
+	switch {
+	case parts[1] == "[]byte":
+		payloadT = types.NewSlice(types.Typ[types.Uint8])
+		r := vc.newRef(st, fr.curReach)
+		ln := "24"
+		if len(parts) > 2 {
+			ln = parts[2]
+		}
+		payload = vc.mkSlice(r, "0", ln, ln)
+		// contents arbitrary but byte-valued
+		comp := vc.arrComp(types.Typ[types.Uint8])
+		a := vc.fresh("poolbuf")
+		vc.declare(a, "(Array Int Int)")
+		vc.assume(fmt.Sprintf("(forall ((j Int)) (! (and (<= 0 (select %s j)) (< (select %s j) 256)) :pattern ((select %s j))))", a, a, a))
+		vc.set(st, comp, fmt.Sprintf("(store %s %s %s)", vc.get(st, comp), r, a))
+	case strings.HasPrefix(parts[1], "*"):
+		t := vc.lookupType(pkg, strings.TrimPrefix(parts[1], "*"))
+		if t == nil {
+			vc.unsupportedf("pool kind %s: unknown type", kind)
+			return []Term{vc.freshVal("poolobj", anyT, fr.curReach)}
+		}
+		payloadT = types.NewPointer(t)
+		r := vc.newRef(st, fr.curReach)
+		comp := vc.memComp(t)
+		v := vc.freshVal("poolobj", t, fr.curReach)
+		vc.set(st, comp, fmt.Sprintf("(store %s %s %s)", vc.get(st, comp), r, v.S))
+		payload = r
+	default:
+		vc.unsupportedf("pool kind %s", kind)
+		return []Term{vc.freshVal("poolobj", anyT, fr.curReach)}
+	}
+	box, unbox := vc.boxFns(payloadT)
+	h := vc.fresh("boxed")
+	vc.define(h, "Int", fmt.Sprintf("(%s %s)", box, payload))
+	vc.assume(fmt.Sprintf("(and (> %s 0) (= (dyntype %s) %s) (= (%s %s) %s))", h, h, vc.tid(payloadT), unbox, h, payload))
+	return []Term{{h, "Int", anyT}}
+}
+
+func poolPut(fr *Frame, cc *ssa.CallCommon, st *State, pos token.Pos) []Term {
+	return nil
+}
+
+func rootGlobalOfLoad(v ssa.Value) (*ssa.Global, bool) {
+	if u, ok := v.(*ssa.UnOp); ok && u.Op == token.MUL {
+		if g, ok := u.X.(*ssa.Global); ok {
+			return g, true
+		}
+	}
+	return nil, false
+}
+
+func (fr *Frame) poolKind(v ssa.Value) string {
+	if g, ok := rootGlobalOfLoad(v); ok {
+		key := shortPkg(g.Pkg.Pkg.Path()) + "." + g.Name()
+		if gs, ok := fr.vc.db.Globals[key]; ok && strings.HasPrefix(gs.Kind, "pool:") {
+			return gs.Kind
+		}
+	}
+	return ""
 }
